@@ -5,6 +5,7 @@ pub mod diff;
 pub mod fuzzapi;
 pub mod harness;
 pub mod lintexp;
+pub mod poison;
 pub mod props;
 pub mod run;
 pub mod walk;
